@@ -236,8 +236,8 @@ def seeded_pairs(seed, n):
 def run_part(o: Outcome, tier, seed, work):
     quick = tier == 'quick'
     cat = CATALOGUE_QUICK if quick else CATALOGUE_THOROUGH
-    pairs = _gen_tlc(work, cat, False, o, 700 if quick else 100000) + _gen_tlc(work, cat, True, o, 500 if quick else 100000)
-    pairs += seeded_pairs(seed, 150 if quick else 2500)
+    pairs = _gen_tlc(work, cat, False, o, 400 if quick else 100000) + _gen_tlc(work, cat, True, o, 300 if quick else 100000)
+    pairs += seeded_pairs(seed, 120 if quick else 2500)
     res = pmap(drive_pair, pairs, chunksize=8)
     cases = [c for cs in res for c in cs]
     terms = {}
